@@ -385,6 +385,31 @@ def corpus():
         qx, parity, _ = tap_output(q, lh)
         control = bytes([0xC0 + parity]) + xonly(q)
         out.append(("corpus:tapscript-0xff/" + leaf.hex(), closed(CONSENSUS), b"", b"\x51" + G.push(qx), [leaf, control], 1))
+    # lax_der_signature_refused: a valid p2pk signature spelled with a long-form length, no DER flag
+    import random
+    sp = Spend(random.Random(0), 0, 0xFFFFFFFF, 1, 0)
+    sp.spk = p2pk(KEYS[0])
+    for mut in ("lax_longlen", "lax_trailing", "lax_pad", "valid"):
+        out.append(("corpus:lax-der/" + mut, "-", G.push(sp.ecdsa(KEYS[0], sp.spk, False, mut)), sp.spk, [], 0))
+    # op_success_oversized_witness_element_refused: OP_SUCCESS leaf, 520 / 521-byte witness element
+    lh = tap_leaf(b"\x50")
+    qx, parity, _ = tap_output(KEYS[3], lh)
+    for n in (520, 521):
+        out.append((f"corpus:op-success-oversize/{n}", closed(CONSENSUS), b"", b"\x51" + G.push(qx),
+                    [bytes(n), b"\x50", bytes([0xC0 + parity]) + xonly(KEYS[3])], 0))
+    # strictenc_hashtype_zero_accepted: a valid signature over hash type 0, STRICTENC
+    sp0 = Spend(random.Random(3), 0, 0xFFFFFFFF, 1, 0)      # rng whose first ht_undefined choice is 0 is not assumed:
+    sp0.spk = p2pk(KEYS[0])
+    tx0, _ = sp0.tx()
+    sg0 = dsa.sign_(sig_hash.legacy(sp0.spk, tx0, 0, 0), KEYS[0])
+    out.append(("corpus:hashtype0/strictenc", "STRICTENC", G.push(der(sg0.r, sg0.s, 0)), sp0.spk, [], 0))
+    out.append(("corpus:hashtype0/none", "-", G.push(der(sg0.r, sg0.s, 0)), sp0.spk, [], 0))
+    # schnorr_sig_size_accepted (repaired in /repo): key path with 64 / 66 / 63 bytes
+    qx, _, d = tap_output(KEYS[3], b"")
+    sp = Spend(random.Random(0), 0, 0xFFFFFFFF, 1, 0)
+    sp.spk = b"\x51" + G.push(qx)
+    for mut in ("valid", "len66", "len63", "explicit_default"):
+        out.append(("corpus:schnorr-size/" + mut, closed(CONSENSUS), b"", sp.spk, [sp.schnorr(d, 0, b"", b"", mut)], 0))
     return out
 
 
